@@ -39,7 +39,7 @@ type Kind struct {
 	Rep       int    `json:"rep"`
 }
 
-var kinds = []string{"http/uri", "http/uri+noconfheaders", "http/uri+preload", "http/uripost", "http/raw", "http/jsonline", "http/jsonline+array", "http/jsonline+preload+shared-client", "http2/uri", "http2/uripost+shared-client", "connect/uri",
+var kinds = []string{"http/uri", "http/uri+noconfheaders", "http/uri+preload", "http/uripost", "http/raw", "http/jsonline", "http/jsonline+array", "http/jsonline+preload+shared-client", "http2/uri", "http2/uripost+shared-client", "http/uripost+trace+shared-client", "http/uri+trace", "connect/uri",
 	"http/scenario", "http/scenario+xpath", "http/scenario+rand", "http/scenario+failing-steps+phout", "grpc/json", "grpc/json+shared-client", "grpc/scenario", "grpc/scenario+failing-steps+phout", "grpc/json+answlog+two-pools", "grpc/scenario+answlog+two-pools", "grpc/json+discard-overflow", "mock/ownership", "http/uri+phout+composite", "schedule/first-use", "http/uri+datemw", "http/uri+dnscache"}
 
 func skipType(t reflect.Type) bool {
@@ -186,6 +186,11 @@ func httpKindOnce(res *vkit.Result, k Kind) {
 		if gunType == "http2" {
 			gun["shared-client"] = map[string]any{"enabled": true, "client-number": 1}
 		}
+	}
+	if strings.Contains(k.Name, "+trace") {
+		// every shot is traced (connect, send, receive times): with a shared client the hooks of one
+		// shot are called from the client's dial goroutines as well
+		gun["httptrace"] = map[string]any{"trace": true, "dump": true}
 	}
 	result := map[string]any{"type": "discard"}
 	phoutPath := ""
